@@ -654,6 +654,12 @@ def run_call_order(case):
             mprog.to_chords(["I", "IV", "V"], key)
         elif first == "determine_seventh":
             mprog.determine(list(V7[4]), key, True)
+        elif first.startswith("other:"):
+            # the first key this process ever hears of is another one (its relative key, for instance)
+            mchords.triads(first[6:])
+            mchords.sevenths(first[6:])
+        else:
+            raise engine.HarnessError("unknown first question %r" % (first,))
     except Exception as e:                                   # noqa
         S.problem("first question %s in a cold process, key %r" % (first, key), "an answer", e)
         return
@@ -772,7 +778,8 @@ def explore(ctx):
     if ctx.want("diatonic"):
         ctx.serial("diatonic", [[k] for k in P.KEYS30])
     if ctx.want("call_order"):
-        ctx.product("call_order", list(P.KEYS30), lambda k: ([k, q] for q in FIRST_QUESTIONS if not (q == "determine_seventh" and k[0].islower())))
+        ctx.product("call_order", list(P.KEYS30), lambda k: itertools.chain(([k, q] for q in FIRST_QUESTIONS if not (q == "determine_seventh" and k[0].islower())),
+                                                                       ([k, "other:" + k2] for k2 in P.KEYS30 if k2 != k)))
     if ctx.want("prefix"):
         _PREFIX["kmax"] = ctx.pick(3, 6)
         ctx.bound("prefix_range", [-_PREFIX["kmax"], _PREFIX["kmax"]])
